@@ -234,6 +234,8 @@ def _device(ctx, R, T):
         R.check(args == [("p", "serial"), ("p", "port_path"), ("p", "default_transport_timeout_s")] and not c.keywords, "USB-device", f.qualname + "|forward", "serial, port_path and the default timeout are forwarded",
                 "find_adb receives %s" % [show(a) for a in args], f.loc(n.ast))
     sup = [(n, c) for n in g.live_nodes() for c in node_calls(n) if call_attr(c) == "__init__"]
+    R.check(len(sup) == 1 and g.dominates([sup[0][0]], g.exit, exc=False) if sup else False, "USB-device", f.qualname + "|super-call", "the device is initialised with the transport found, on every path",
+            "AdbDeviceUsb.__init__ does not call AdbDevice.__init__ exactly once on every path", f.loc())
     for n, c in sup:
         args = [T.term(f, n, a) for a in c.args]
         a0 = unawait(c.args[0]) if c.args else None
